@@ -118,6 +118,30 @@ pub fn scenarios(prop: &str, thorough: bool) -> Vec<Scenario> {
                         }
                     }
                     u.push(UOp::EventLoop(6));
+                    if variant == 0 {
+                        // a writer held between reserving and publishing: every tick reports running
+                        // (an item is outstanding) and every such tick must be followed by a
+                        // notification although the run it leaves behind finds nothing new
+                        for tick_first in [false, true] {
+                            let mut uh = vec![UOp::Reparse(0, p)];
+                            if tick_first {
+                                uh.push(UOp::Tick);
+                            }
+                            uh.extend([UOp::EventLoop(2), UOp::Release(0), UOp::EventLoop(6)]);
+                            v.push(Scenario {
+                                name: format!("C13/p={p:?}/held/tick_first={tick_first}"),
+                                pool_threads: 1,
+                                columns: 1,
+                                preload: preload4(),
+                                u: uh,
+                                injectors: vec![(true, vec![IOp::PushHeld(it(1, "ab"), 0)])],
+                                slots: 1,
+                                bound: 0,
+                                fine: true,
+                                flag_points: false,
+                            });
+                        }
+                    }
                     v.push(Scenario {
                         name: format!("C13/p={p:?}/v{variant}"),
                         pool_threads: 1,
@@ -494,6 +518,41 @@ pub fn scenarios(prop: &str, thorough: bool) -> Vec<Scenario> {
                     }
                 }
             }
+            // (RE) an edit after the restart: the first run over the new stream (the one that resets
+            // the worker's scan state) may be cancelled by the edit before it has started or half
+            // way; the following run must still see a worker that was reset
+            for pool in [1usize, 2] {
+                for b1 in [true, false] {
+                    for (ei, e) in ["ab", "b", ""].iter().enumerate() {
+                        for early in [false, true] {
+                            let mut u = vec![UOp::Reparse(0, "a"), UOp::Tick, UOp::Restart(b1)];
+                            if early {
+                                // the edit comes before the first tick after the restart
+                                u.push(UOp::Reparse(0, e));
+                            }
+                            u.push(UOp::Extend(vec![it(20, "ab"), it(21, "xab"), it(22, "b"), it(23, "a"), it(24, "ab")]));
+                            u.push(UOp::Tick);
+                            if !early {
+                                u.push(UOp::Reparse(0, e));
+                            }
+                            u.push(UOp::Drain(6));
+                            v.push(Scenario {
+                                name: format!("RE/pool{pool}/clear={b1}/e{ei}/early={early}"),
+                                pool_threads: pool,
+                                columns: 1,
+                                // the old stream has non-matching items at indices where the new one has matching ones
+                                preload: vec![it(100, "a"), it(101, "zzz"), it(102, "ab"), it(103, "zz")],
+                                u,
+                                injectors: vec![],
+                                slots: 0,
+                                bound: 0,
+                                fine: true,
+                                flag_points: false,
+                            });
+                        }
+                    }
+                }
+            }
             // small scripts with a suspended writer of the old stream, explored with a higher bound
             for pool in [1usize, 2] {
                 for p in ["", "a"] {
@@ -726,6 +785,11 @@ pub fn scenarios(prop: &str, thorough: bool) -> Vec<Scenario> {
         let small = s.name.starts_with("As/") || s.name.starts_with("Bs/");
         if small && !thorough && !s.name.contains("C20s") {
             s.fine = false;
+        }
+        if s.name.contains("/held/") {
+            // event loop around a held writer: long, many free choices; preemptions only in the thorough tier
+            s.bound = if thorough { 1 } else { 0 };
+            continue;
         }
         if s.name.starts_with("H/") {
             // held writers: the pauses are scripted, every tick and release order is a free
